@@ -16,4 +16,19 @@ run B9_write_head_explicit_ok C10
 run B10_fq_display_reorder_reword C17
 run B11_policy_some_inside C09
 run B12_bufsize_shift C09 C01
+# round 2 (fourteen larger refactorings from an independent worker; benign/README-round2.md has the equivalence arguments)
+run N01_fasta_next_init_first_byte C01 C05
+run N02_fasta_search_loop C01
+run N03_fasta_resume_grow_make_room_seek C01 C05 C09
+run N04_fasta_read_record_set_exact C04
+run N05_fastq_search_unified C02
+run N06_fastq_validate_error_pos C02 C17
+run N07_fastq_resume_check_end_make_room_seek C02 C05
+run N08_parallel_reader_loop C07 C08
+run N09_parallel_next_and_record_loops C07 C15
+run N10_lib_fill_buf_trim_cr_try_opt C01 C14
+run N11_policy_shared_helper C09
+run N12_writers_wrap_loop_shared_tail C10 C11
+run N13_record_views_seq_lines_windows C13 C20
+run N14_error_display_impls C17
 git -C /repo status --short | head -3
